@@ -282,6 +282,8 @@ pub fn units(prop: &str, tier: Tier) -> Option<Vec<Unit>> {
                 .probes(NOPROBE)
                 .pairs(PairMode::Exact)
                 .unit(),
+                // text parsers and regex() have hand-written fast paths: the same prefix in every eliding formulation
+                Unit::Custom { name: "text-elision".into(), run: Box::new(move |cx| eng_text::run_elision("text-elision", if tier == Tier::Quick { 3 } else { 4 }, cx)) },
                 e1("k04-elision-pairs", format!("every K04 grammar with <= {} nodes containing an output-eliding combinator vs its value-building formulation", pick(3, 4)), pairs)
                     .probes(NOPROBE)
                     .pairs(PairMode::Exact)
